@@ -6,6 +6,7 @@ exclusive check-box groups evaluated over the whole (finite) value domain of the
 value functions; PDFFiller._fill_form executed symbolically (each box gets the text of its own line, blank
 for an absent optional line).
 """
+import functools
 import itertools
 import json
 import os
@@ -90,6 +91,8 @@ def form_mappings(year, fname):
                 ok = label == mine or (allowed is not None and allowed.get('label') == label and allowed.get('line') == fn)
                 ob(oid + '/label-line', ok, f'the template labels the box "{w.speak[:60]}" (line {label}); the mapped line is {fn}' + (f' [accepted: {allowed["why"]}]' if allowed and label != mine else ''),
                    {'template_label': w.speak[:120], 'label_line': label, 'mapped_line': fn})
+            for what, ok, why in keyword_label(bn, w):
+                ob(oid + '/' + what, ok, why, {'template_label': w.speak[:160], 'mapped_line': fn})
             if isinstance(pf, P.ButtonPDFField):
                 ob(oid + '/kind', w.kind == 'button', 'a check-box mapping targets a check-box widget', {'widget_kind': w.kind})
                 on = [e for e in w.exports if e not in ('Off', '0', '')] or w.exports[:1]
@@ -121,6 +124,72 @@ def form_mappings(year, fname):
                 ob(oid + '/choices', set(pf._choices) <= set(w['opts']) or not w['opts'], 'every choice of the mapping is an option of the template field', {'extra': sorted(set(pf._choices) - set(w['opts']))[:5]})
     obs.extend(exclusive_groups(year, fname, form, xfa, acro, fid))
     obs.extend(yesno_groups(year, fname, form, xfa, acro, fid))
+    return obs
+
+
+@functools.lru_cache(maxsize=None)
+def label_keywords():
+    with open(os.path.join(oblig.VERIF, 'contracts', 'pdf_label_keywords.json')) as f:
+        return json.load(f)
+
+
+def keyword_label(bn, w):
+    """Descriptive line names (dependent_3_ctc, spouse_ssn, ...): the current label of the box names the same thing."""
+    kw = label_keywords()
+    out = []
+    lab = (w.speak or '').lower()
+    if not lab:
+        return out
+    for suf, phrases in kw['suffix'].items():
+        if suf.startswith('_') and not bn.endswith(suf) and bn != suf[1:]:
+            continue
+        if not suf.startswith('_') and not bn.endswith(suf):
+            continue
+        out.append(('label-names-the-line', any(p in lab for p in phrases), f'the template labels the box "{w.speak[:70]}"; line {bn} fills only boxes labelled {phrases}'))
+        break
+    m = re.match(kw['row_of']['pattern'], bn)
+    if m and 'row:' in lab:
+        want = kw['row_of']['label'].format(n=int(m.group(1)) + kw['row_of']['offset']).lower()
+        out.append(('label-row', want in lab, f'the template labels the box "{w.speak[:40]}"; line {bn} belongs to "{want}"'))
+    return out
+
+
+def person_copies(year):
+    """Forms filed once per person (instances you / spouse of one class): the spouse's copy is the taxpayer's copy with the roles
+    swapped - own lines stay own lines, a cross-form person line (1040.you_ssn) becomes the other person's (1040.spouse_ssn).  A box
+    of both copies filled from the same person line of another form shows one person's data on the other person's form."""
+    cat = linevc.Cat.get(year)
+    by_class = {}
+    for fname, form in cat.forms.items():
+        if ':' in fname and fname.split(':')[1] in ('you', 'spouse') and getattr(form, 'pdf_file', None) and form.pdf_file():
+            by_class.setdefault(fname.split(':')[0], {})[fname.split(':')[1]] = form
+    obs = []
+
+    def swap(fn):
+        if '.' not in fn:
+            return fn
+        f, b = fn.rsplit('.', 1)
+        if b.startswith('you_'):
+            return f'{f}.spouse_{b[4:]}'
+        if b.startswith('spouse_'):
+            return f'{f}.you_{b[7:]}'
+        return fn
+    for cls, inst in sorted(by_class.items()):
+        if set(inst) != {'you', 'spouse'}:
+            continue
+        a = {pf.pdf_field_name: pf.field_name for pf in inst['you'].pdf_fields()}
+        b = {pf.pdf_field_name: pf.field_name for pf in inst['spouse'].pdf_fields()}
+        bad = sorted(k for k in set(a) | set(b) if k not in a or k not in b or b[k] != swap(a[k]))
+        fid = f'{type(inst["you"]).__module__.replace("habutax.", "").replace(".", "/")}.py:pdf_fields'
+        oid = f'C18/{year}/{cls}/copies-per-person-are-role-symmetric'
+        clause = f'every box of {cls}:spouse is filled from the line that fills it on {cls}:you with the roles swapped (own lines stay own lines)'
+        if not bad:
+            obs.append(Ob(id=oid, backend='ground-eval', function=fid, clause=clause, vc=f'{len(a)} box(es)'))
+        else:
+            k = bad[0]
+            obs.append(Ob(id=oid, status=oblig.REFUTED, backend='ground-eval', function=fid, clause='NOT: ' + clause,
+                          witness={'box': k, 'on_you_copy': a.get(k), 'on_spouse_copy': b.get(k), 'expected_on_spouse_copy': swap(a[k]) if k in a else None},
+                          replay={'reproduced': True, 'observed': {'box': k, 'you': a.get(k), 'spouse': b.get(k)}}))
     return obs
 
 
@@ -492,11 +561,12 @@ def run(tier, seed, t0):
             if form.pdf_file() or len(form.pdf_fields()) > 0:
                 tasks.append(Task(f'C18/{year}/{fname}', form_mappings, year, fname, weight=len(form.pdf_fields())))
         tasks.append(Task(f'C18/{year}/filing', filing_forms, year))
+        tasks.append(Task(f'C18/{year}/copies', person_copies, year))
     tasks.append(Task('C18/fill_form', fill_form_unit, weight=50))
     obs = oblig.run_tasks(tasks)
     return oblig.finish('C18', tier, seed, obs, t0,
                         functions=['every pdf_fields list (3 years, 39 templates)', 'pdf_fields.py:ButtonPDFField.value (with the real value_fn lambdas)', 'pdf_filler.py:PDFFiller._fill_form'],
-                        trusted_base=base.TRUSTED + ['pyvc/pdfread.py (XFA / AcroForm reader)', 'contracts/pdf_label_exceptions.json'],
+                        trusted_base=base.TRUSTED + ['pyvc/pdfread.py (XFA / AcroForm reader)', 'contracts/pdf_label_exceptions.json', 'contracts/pdf_label_keywords.json'],
                         assumptions=['the bundled templates are the official ones; a label that does not parse counts as "no label"',
                                      'frozen label exceptions (template label errors, deliberate reuse) are listed with their reason in contracts/pdf_label_exceptions.json'],
                         checker_cmd='./check C18', min_obligations=3000, extra={'exhaustive': True})
